@@ -229,4 +229,22 @@ Section Semantics.
     | _ => 1%nat
     end.
 
+  (* fuel that is enough for [m] on a haystack of [n] characters (proved adequate in MatcherFacts): one unit per level
+     of nesting, one per iteration of a loop (an optional iteration consumes a character, a counted repetition has [lo]
+     mandatory ones) *)
+  Fixpoint need (r : re) (n : nat) : nat :=
+    match r with
+    | RCat a b | RAlt a b => S (Nat.max (need a n) (need b n))
+    | ROpt a | RGroup _ a => S (need a n)
+    | RStar _ a => S (n + need a n)
+    | RRep a lo _ => S (N.to_nat lo + n + need a n)
+    | _ => 1%nat
+    end.
+
+  Definition k_end : K := fun w' c => match w' with [] => Some c | _ => None end.
+
+  (* the whole haystack is matched (`^r$`): the captures of the leftmost-first parse *)
+  Definition run (r : re) (w : str) : option caps := m (length w) (need r (length w)) r 0%nat w [] k_end.
+  Definition accepts (r : re) (w : str) : bool := match run r w with Some _ => true | None => false end.
+
 End Semantics.
